@@ -2177,7 +2177,13 @@ func (z *zfn) provePhi(at ssa.Instruction, g lin, depth int, extra []lin) bool {
 // provePhiInFacts: the goal does not mention a phi, but what is known at `at` ties it to one (n == len(b[:length])
 // with length a phi).  Split over that phi's edges, keeping every fact and adding phi == the edge's value.
 func (z *zfn) provePhiInFacts(at ssa.Instruction, g lin) bool {
-	base := z.factsAt(at)
+	return z.provePhiInFactsX(at, g, nil, 0, map[string]bool{})
+}
+
+// provePhiInFactsX: with `extra` hypotheses from an outer split; a join that the hypotheses of one edge mention in turn
+// (a limit that is itself the smaller of two values) is split one level further.
+func (z *zfn) provePhiInFactsX(at ssa.Instruction, g lin, extra []lin, depth int, skip map[string]bool) bool {
+	base := append(append([]lin{}, z.factsAt(at)...), extra...)
 	names := map[string]bool{}
 	for _, f := range base {
 		for n := range f.coef {
@@ -2192,6 +2198,9 @@ func (z *zfn) provePhiInFacts(at ssa.Instruction, g lin) bool {
 	}
 	sort.Strings(sorted)
 	for _, name := range sorted {
+		if skip[name] {
+			continue
+		}
 		isLen, isCap := false, false
 		vn := name
 		if strings.HasPrefix(name, "len#") {
@@ -2245,10 +2254,19 @@ func (z *zfn) provePhiInFacts(at ssa.Instruction, g lin) bool {
 				}
 			}
 			facts = append(facts, z.factsAt(at)...)
+			facts = append(facts, extra...)
 			facts = append(facts, leq(linVar(name), sub, 0), leq(sub, linVar(name), 0))
 			if !entails(facts, g) && !z.provePhi(at, g, 1, facts) {
-				all = false
-				break
+				deeper := false
+				if depth < 1 {
+					skip[name] = true
+					deeper = z.provePhiInFactsX(at, g, facts, depth+1, skip)
+					delete(skip, name)
+				}
+				if !deeper {
+					all = false
+					break
+				}
 			}
 		}
 		if all && any {
